@@ -1,9 +1,7 @@
-import Driver.Util
-/-! Driver for C11: not built yet. -/
+import Driver.AdminCommon
+/-! Driver for C11: the shared administrative model + the C11 part of the oracle (see Driver/AdminCommon.lean). -/
 namespace Driver.C11
 
-def run : IO UInt32 := do
-  IO.eprintln "C11: driver not built yet"
-  return 2
+def run : IO UInt32 := Driver.Adm.run "C11"
 
 end Driver.C11
